@@ -15,6 +15,29 @@ Proof. exact (decode_encode bs). Qed.
 Theorem unframe_frame blob : bytes blob -> unframe_enc (frame_enc blob) = Some blob.
 Proof. intros H. unfold unframe_enc, frame_enc. rewrite strip_prefix_app. apply decode_encode. exact H. Qed.
 
+(* the framing is unambiguous: two byte strings with one encoding / one frame are equal, and an "hmac-sha256:" value is
+   never read back as an "encrypted:" one *)
+Theorem b64url_injective a b : bytes a -> bytes b -> encode a = encode b -> a = b.
+Proof.
+  intros Ha Hb E. pose proof (decode_encode a Ha) as Da. rewrite E, (decode_encode b Hb) in Da.
+  injection Da as Da. symmetry. exact Da.
+Qed.
+
+Theorem frame_enc_injective a b : bytes a -> bytes b -> frame_enc a = frame_enc b -> a = b.
+Proof.
+  intros Ha Hb E. pose proof (unframe_frame a Ha) as Da. rewrite E, (unframe_frame b Hb) in Da.
+  injection Da as Da. symmetry. exact Da.
+Qed.
+
+Theorem frame_hmac_injective a b : bytes a -> bytes b -> frame_hmac a = frame_hmac b -> a = b.
+Proof. intros Ha Hb E. unfold frame_hmac in E. apply app_inv_head in E. exact (b64url_injective a b Ha Hb E). Qed.
+
+Theorem hmac_frame_is_not_enc mac : unframe_enc (frame_hmac mac) = None.
+Proof. reflexivity. Qed.
+
+Theorem enc_frame_is_not_hmac blob : strip_prefix prefix_hmac (frame_enc blob) = None.
+Proof. reflexivity. Qed.
+
 (* the two prefixes are what the code writes *)
 Lemma prefixes :
   prefix_enc = [101; 110; 99; 114; 121; 112; 116; 101; 100; 58]%N /\
